@@ -66,6 +66,14 @@ func DateFromString(data string) (*Date, error) {
 		return nil, fmt.Errorf("Invalid date string: %s", data)
 	}
 
+	// the zero date is allowed as a placeholder, anything else has to be a
+	// plausible calendar date within the four digit year range.
+	if year != 0 || month != 0 || day != 0 {
+		if year < 0 || year > 9999 || month < 1 || month > 12 || day < 1 || day > 31 {
+			return nil, fmt.Errorf("Invalid date string: %s", data)
+		}
+	}
+
 	dd := &Date{
 		Year:  int32(year),
 		Month: int32(month),
